@@ -71,7 +71,7 @@ impl Blob {
             .seek_physical(self.offset)
             .read_err("Failed to seek to start offset of blob")?;
         let header = BlobSectionHeader::from_reader(reader)?;
-        if self.length > header.section_length + 16 {
+        if self.length > header.section_length.saturating_add(16) {
             Error::invalid("Blob XML length and blob section header mismatch")?
         }
 
